@@ -203,6 +203,23 @@ def _hist_body(ops, ps, reuse_at, which):
             why = checked_write(ctx, label + ' (second write)', v, lambda v=v: v.__setitem__(0, v[0]))
             if why:
                 return H.fail('history %r: %s' % (ops, why))
+        # former sharers: a slot vector that (legitimately) shares storage must be writable once every partner has been dropped.
+        # (no snapshot list of the slots is taken here: it would keep the dropped partners alive)
+        i = 0
+        while i < len(ctx.slots):
+            v = ctx.slots[i]
+            i += 1
+            if len(v) == 0: continue
+            mates_idx = [j for j in range(len(ctx.slots)) if ctx.slots[j] is not v and ctx.slots[j]._underlying is v._underlying]
+            in_table = any(col._underlying is v._underlying for t in ctx.tables for col in t.cols())
+            if not mates_idx or in_table: continue
+            for j in reversed(mates_idx):
+                del ctx.slots[j]
+            i = [j for j in range(len(ctx.slots)) if ctx.slots[j] is v][0] + 1
+            why = checked_write(ctx, 'a former sharer whose partners were dropped', v, lambda v=v: v.__setitem__(0, v[0]))
+            if why:
+                return H.fail('history %r: %s' % (ops, why))
+        v = None
         # pinned reuse: the storage of a brand-new vector receives the identity of a dead tuple (solver-chosen which one)
         if reuse_at == -2:
             dead = model._dead_ids()
